@@ -176,6 +176,42 @@ def r01_1(ctx):
                            % (ktxt, show(v)))
     if n_sinks < 14:
         raise AnalysisError('R01.1 found only %d cache sinks' % n_sinks)
+    feeder_state_is_per_sequence(ctx, 'R01.1')
+
+
+def feeder_state_is_per_sequence(ctx, rule):
+    """TaskHandler.body: the variables the failure handlers read (current task, current
+    index) are reset for every task sequence, so that a failure while feeding job B can
+    never be attached to the last task of an earlier job A."""
+    m = ctx.model
+    fi = m.func('pool:TaskHandler.body')
+    cfg = fi.cfg
+    fors = sorted(cfg.where(lambda n: n.kind == 'for'), key=lambda n: n.stmt.lineno)
+    q.need(len(fors) >= 2, 'TaskHandler.body: outer/inner feeding loops not found')
+    outer, inner = fors[0], fors[1]
+    q.need(q.inside(fi, inner, outer.stmt.body), 'TaskHandler.body: inner loop is not nested in the outer one')
+    names = [x.id for x in ast.walk(inner.stmt.target) if isinstance(x, ast.Name)]
+    used_in_handlers = set()
+    for tr in [t for t in walk_own(outer.stmt) if isinstance(t, ast.Try)]:
+        if any(x is inner.stmt for st in tr.body for x in ast.walk(st)):
+            for h in tr.handlers:
+                for x in ast.walk(h):
+                    if isinstance(x, ast.Name) and x.id in names:
+                        used_in_handlers.add(x.id)
+    # also what follows the loop in the same iteration (set_length(i + 1))
+    for nm in names:
+        if nm in used_in_handlers or any(isinstance(x, ast.Name) and x.id == nm for st in inner.stmt.orelse
+                                         for x in ast.walk(st)):
+            resets = [dn for (dn, t, v) in q.assigns(fi, nm) if q.inside(fi, dn, outer.stmt.body)
+                      and not q.inside(fi, dn, inner.stmt.body) and isinstance(v, (ast.Constant, ast.UnaryOp))]
+            body_start = [b for (b, l) in cfg.succ[outer.id] if l == 't']
+            r = cfg.reach(body_start, block_nodes={d.id for d in resets}, include_src=True, skip_labels=('x',))
+            ok = bool(resets) and inner.id not in r
+            ctx.ob(rule, 'TaskHandler.body:%s-reset-for-every-sequence' % nm, ok, fi, resets[0] if resets else outer,
+                   '`%s` is re-initialised on every path from the start of a sequence to its feeding loop' % nm
+                   if ok else
+                   '`%s` keeps its value from the previous task sequence: a failure while feeding this job is '
+                   'attributed to the last task of an earlier job' % nm)
 
 
 # ---------------------------------------------------------------------------
